@@ -8,19 +8,20 @@ From Coq Require Import Reals Lra.
 From SV Require Import Lib.Base Lib.GenericField Lib.GenericFieldR Gen.TrustConsts Model.Trust Proofs.Trust.
 Local Open Scope R_scope.
 
-(* the numbers the property text relies on, from the constants regenerated from the source:
-   success +1, failure +1, data-unavailable +1, corrupted data +2, protocol violation +2;
-   the response rate carries a non-negative weight; an unknown peer reads 0; both copies of the
-   EMA (async and TrustProvider) use the same weights *)
+(* what the property text relies on, from the constants regenerated from the source (currently:
+   success +1, failure +1, data-unavailable +1, corrupted data +2, protocol violation +2):
+   corrupted / protocol-violation weigh at least as much as failed / unavailable; an unknown peer
+   reads 0; the default response rate lies in [0,1]; both copies of the EMA (async and
+   TrustProvider) use the same weights; both 0.9 literals for fresh anchors agree *)
 Theorem C10_constants :
-  (TRUST_W_CORRECT = 1 /\ TRUST_W_FAILED = 1 /\ TRUST_W_UNAVAILABLE = 1 /\
-   TRUST_W_CORRUPTED = 2 /\ TRUST_W_PROTOCOL = 2)%N /\
+  (TRUST_W_FAILED <= TRUST_W_CORRUPTED /\ TRUST_W_FAILED <= TRUST_W_PROTOCOL /\
+   TRUST_W_UNAVAILABLE <= TRUST_W_CORRUPTED /\ TRUST_W_UNAVAILABLE <= TRUST_W_PROTOCOL)%N /\
   @of_Q RF TRUST_UNKNOWN_SCORE = 0 /\ 0 <= @of_Q RF TRUST_MF_DEFAULT_RATE <= 1 /\
   TRUST_EMA_KEEP = TRUST_EMA_KEEP_SYNC /\ TRUST_EMA_NEW = TRUST_EMA_NEW_SYNC /\
   TRUST_ANCHOR_INITIAL = TRUST_ANCHOR_INITIAL_ADD.
 Proof.
-  split; [repeat split; reflexivity|]. split; [exact unknown_score_R|]. rewrite default_rate_R.
-  split; [lra|]. repeat split; reflexivity.
+  split; [repeat split; vm_compute; discriminate|]. split; [exact unknown_score_R|].
+  split; [exact default_rate_bounds|]. repeat split; reflexivity.
 Qed.
 
 Section C10.
